@@ -1213,7 +1213,10 @@ class Response:
 
         if isinstance(value, str):
             if self._cache_control_obj is None:
-                self.headers["Cache-Control"] = value
+                if value:
+                    self.headers["Cache-Control"] = value
+                else:
+                    self.headers.pop("Cache-Control", None)
 
                 return
             value = CacheControl.parse(value, type="response")
